@@ -19,6 +19,7 @@ import c01complete
 import segmodel
 import dispatch
 import nitfasm
+import seg_hist
 
 sys.path.insert(0, os.path.join(VERIF, 'translate'))
 
@@ -628,10 +629,11 @@ def run(tier):
     if gen_info['unsupported']:
         gen_info['note'] = 'translator could not express: ' + json.dumps(gen_info['unsupported'])
     gen_info['dispatch'] = dispatch.regen()
+    gen_info['segstate'] = seg_hist.regen()      # Gen/SegState.lean: which method of data_segment.py writes which field of self
     nitfasm.regenerate(chk)          # Gen/NitfOrient.lean: the NITF reader's orientation tables, from the current source
     broken = chk.prove(['SarpyModel.Props.C01', 'SarpyModel.Props.C01Nd', 'SarpyModel.Props.C01Complete', segmodel.SEG_MODULE, nitfasm.NITF_MODULE, 'SarpyModel.Drivers']
-                       + dispatch.targets_reads(), 'SarpyModel.Props.C01Complete', 'Sarpy.Props.C01', REQUIRED, gen_info,
-                       extra=dispatch.extra_reads())
+                       + dispatch.targets_reads() + seg_hist.targets_reads(), 'SarpyModel.Props.C01Complete', 'Sarpy.Props.C01', REQUIRED, gen_info,
+                       extra=dispatch.extra_reads() + seg_hist.extra_reads())
     if not broken:
         segmodel.obligations_reads(chk, broken)      # Props/C01Seg.lean: segment trees as index maps, read = select(full)
         nitfasm.obligations(chk, broken)             # Props/C01Nitf.lean: how the NITF reader builds those trees from subheader fields
@@ -784,6 +786,14 @@ def run(tier):
         broken.append('dispatch model driver does not build/run: ' + str(e)[:300])
         dsp = {'stats': {'classes': 0}}
 
+    # ---- histories of read-side requests (formatted and raw reads, parent subscripts) on ONE segment object vs fresh objects
+    sh = seg_hist.run_reads(chk, tier)
+    fails += sh['fails']
+    disagreements += sh['disagreements']
+    broken += sh['broken']
+    evaluations += sh['evaluations']
+    chk.coverage['read_histories'] = sh['stats']
+
     evaluations += stats.get('reads', 0)
     chk.coverage.update({
         'evaluations': evaluations,
@@ -886,6 +896,8 @@ def replay(path):
         return dispatch.replay_case(case)
     if case['kind'] == 'nitf':
         return nitfasm.replay_case(case)
+    if case['kind'].startswith('seghist'):
+        return seg_hist.replay_case(case)
     if case['kind'] == 'kernel':
         m = kernel_oracle(tuple(tuple(x) if isinstance(x, list) else x for x in case['case']))
         print('kernel oracle:', m)
